@@ -114,6 +114,7 @@ PULSES = {
     'wide12': (1.0, 2.0, 0.0, 10.0),
     'ess12': (1.0, 2.0, 1.8, 7.2),
     'narrow12': (1.0, 2.0, 0.5, 0.625),
+    'odd': (0.3, 2.9, 0.9, 4.1),
 }
 DISTANCES = (0.0, 6.3, 10.0, 23.7, 60.0)
 
@@ -165,11 +166,12 @@ def cases(tier):
         out.append({'pulse': pulse, 'choppers': [[d, p] for d, p in chops]})
 
     thorough = tier == 'thorough'
-    pulses = list(PULSES) if thorough else ['wide', 'ess', 'narrow', 'ess12']
-    for pu in pulses:
+    pulses = [p for p in PULSES if p != 'odd'] if thorough else ['wide', 'ess', 'narrow', 'ess12']
+    pulses1 = [*pulses, 'odd'] if thorough else pulses
+    for pu in pulses1:
         add(pu, [])
     # one chopper: every distance x every pattern
-    for pu in pulses:
+    for pu in pulses1:
         for d in DISTANCES:
             for p in P_ALL + (P_EXTRA if thorough else []):
                 add(pu, [(d, p)])
@@ -230,7 +232,11 @@ def make_chopper(distance, windows):
 def sub_arrays(sub):
     if sub.time.unit != sc.Unit('s') or sub.wavelength.unit != sc.Unit('angstrom'):
         raise AssertionError(f'subframe units {sub.time.unit}, {sub.wavelength.unit}')
-    return np.array(sub.time.values, dtype=float), np.array(sub.wavelength.values, dtype=float)
+    time = sub.time
+    if time.ndim > 1:  # array of distances: put the vertex dim last, whatever layout the library chose
+        wdims = list(sub.wavelength.dims)
+        time = time.transpose([*(d for d in time.dims if d not in wdims), *wdims])
+    return np.array(time.values, dtype=float), np.array(sub.wavelength.values, dtype=float)
 
 
 def frame_arrays(frame):
@@ -370,12 +376,16 @@ def check_regular(ctx, frame, arrays, label, with_bounds=False):
             near = np.abs(lam[ext_t] - ext_l) <= 4 * np.spacing(abs(ext_l))
             if near.any() and not (lam[ext_t] == ext_l).any():
                 cause = 'lambda_ulp'
+        sliver = clip.float_area(t, lam) <= ctx.atol_area
+        if sliver:
+            cause += '_sliver'
         rec.cls('irregular_' + cause)
         ctx.viol_once(
             site,
             'irregular_subframe',
             f'{label}: subframe {k} produced by the library is not is_regular(): time={t.tolist()} wavelength={lam.tolist()}',
             cause=cause,
+            sliver=bool(sliver),
             pulse=ctx.case['pulse'],
             time=t.tolist(),
             wavelength=lam.tolist(),
@@ -392,13 +402,16 @@ def check_regular(ctx, frame, arrays, label, with_bounds=False):
         return
     rec.cls('subbounds_ok')
     rec.evals += 1
-    tb = np.array(sb['time'].values, dtype=float)
-    lb = np.array(sb['wavelength'].values, dtype=float)
+    def by_name(v):
+        return np.array(v.transpose([*(d for d in v.dims if d not in ('subframe', 'bound')), 'subframe', 'bound']).values, dtype=float)
+
+    tb = by_name(sb['time'])
+    lb = by_name(sb['wavelength'])
     want_t = np.array([[t.min(axis=-1), t.max(axis=-1)] for t, _ in arrays])  # (subframe, bound[, distance])
     want_l = np.array([[lam.min(), lam.max()] for _, lam in arrays])
     if tb.ndim == 3:  # (distance, subframe, bound)
         want_t = np.moveaxis(want_t, -1, 0)
-    if sb['time'].dims[-2:] != ('subframe', 'bound') or tb.shape != want_t.shape or not np.array_equal(tb, want_t):
+    if tb.shape != want_t.shape or not np.array_equal(tb, want_t):
         ctx.viol_once(site, 'wrong_time_bounds', f'{label}: subbounds time {tb.tolist()} != vertex min/max {want_t.tolist()}')
     if lb.shape != want_l.shape or not np.array_equal(lb, want_l):
         ctx.viol_once(site, 'wrong_wavelength_bounds', f'{label}: subbounds wavelength {lb.tolist()} != vertex min/max {want_l.tolist()}')
@@ -434,11 +447,11 @@ def check_against_model(ctx, frame, applied, label, site, lattice=True, with_bou
         if len(arrays) > 1:
             rec.cls('multi_subframe')
         if lam.min() < ctx.lmin - 1e-12 or lam.max() > ctx.lmax + 1e-12:
-            ctx.viol_once(site, 'outside_wavelength_band', f'{label}: subframe {k} wavelength {lam.min()!r}..{lam.max()!r} outside [{ctx.lmin}, {ctx.lmax}]', applied=list(applied))
+            ctx.viol_once(site, 'outside_wavelength_band', f'{label}: subframe {k} wavelength {float(lam.min())!r}..{float(lam.max())!r} outside [{ctx.lmin}, {ctx.lmax}]', applied=list(applied))
         t0 = t - ALPHA_F * lam * D
         tol0 = BAND * ctx.tscale(D)
         if t0.min() < ctx.tmin - tol0 or t0.max() > ctx.tmax + tol0:
-            ctx.viol_once(site, 'outside_pulse_time', f'{label}: subframe {k} emission times {t0.min()!r}..{t0.max()!r} outside the pulse', applied=list(applied))
+            ctx.viol_once(site, 'outside_pulse_time', f'{label}: subframe {k} emission times {float(t0.min())!r}..{float(t0.max())!r} outside the pulse', applied=list(applied))
         a = clip.float_area(t, lam)
         if a <= ctx.atol_area:
             rec.cls('degenerate_subframe')
@@ -453,7 +466,7 @@ def check_against_model(ctx, frame, applied, label, site, lattice=True, with_bou
                 ctx.viol_once(
                     site,
                     'subframe_outside_windows',
-                    f'{label}: subframe {k} arrives at chopper {ci} (d={d}) during {tc.min()!r}..{tc.max()!r}, inside none of {ctx.windows[ci]}',
+                    f'{label}: subframe {k} arrives at chopper {ci} (d={d}) during {float(tc.min())!r}..{float(tc.max())!r}, inside none of {ctx.windows[ci]}',
                     applied=list(applied),
                     chopper=ci,
                 )
@@ -522,7 +535,7 @@ def check_against_model(ctx, frame, applied, label, site, lattice=True, with_bou
             ctx.viol_once(
                 site,
                 kind,
-                f'{label}: neutron t0={pt0[j]!r} s lam={plam[j]!r} A is {"transmitted" if ok[j] else "blocked"} by the model but '
+                f'{label}: neutron t0={float(pt0[j])!r} s lam={float(plam[j])!r} A is {"transmitted" if ok[j] else "blocked"} by the model but '
                 f'{"outside every" if ok[j] else "inside a"} reported polygon at {D} m ({int(bad.sum())} of {int(judged.sum())} probes disagree)',
                 applied=list(applied),
                 t0=float(pt0[j]),
@@ -563,14 +576,17 @@ def same_set(ctx, a_arrays, b_arrays, D, rel):
     return True
 
 
-def same_vertices(a_arrays, b_arrays, tol_t):
-    """Same subframes, same vertex order; times within tol_t, wavelengths identical."""
+def same_vertices(ctx, a_arrays, b_arrays, D):
+    """Same subframes in the same order, same vertex order, coordinates within 1e-12 (relative to the scale of
+    the frame) - the notion of Subframe.__eq__, evaluated independently."""
     if len(a_arrays) != len(b_arrays):
         return False
+    tol_t = 1e-12 * ctx.tscale(D)
+    tol_l = 1e-12 * max(abs(ctx.lmin), abs(ctx.lmax))
     for (t, lam), (u, mu) in zip(a_arrays, b_arrays, strict=True):
         if t.shape != u.shape or lam.shape != mu.shape:
             return False
-        if not np.array_equal(lam, mu) or not (np.abs(t - u) <= tol_t).all():
+        if not ((np.abs(lam - mu) <= tol_l).all() and (np.abs(t - u) <= tol_t).all()):
             return False
     return True
 
@@ -628,7 +644,7 @@ def run_case(case, rec):
                             'Frame.chop',
                             'touching_window_lost',
                             f'chopper {ci} at {d} m window [{o!r}, {c!r}] touches the arriving subframe exactly at t={T!r} '
-                            f'(lam {lam_t.min()!r}..{lam_t.max()!r}); the neutrons arriving at that instant pass but no reported subframe contains them',
+                            f'(lam {float(lam_t.min())!r}..{float(lam_t.max())!r}); the neutrons arriving at that instant pass but no reported subframe contains them',
                             chopper=ci,
                             window=[o, c],
                         )
@@ -643,7 +659,7 @@ def run_case(case, rec):
         rec.viol('FrameSequence.chop', 'frame_count', f'{len(can)} / {len(inc)} frames for {n} choppers')
         return
     for k in range(n + 1):
-        if not (frames_eq(can[k], inc[k]) and same_vertices(frame_arrays(can[k]), frame_arrays(inc[k]), 0.0)):
+        if not (frames_eq(can[k], inc[k]) and same_vertices(ctx, frame_arrays(can[k]), frame_arrays(inc[k]), dists[k - 1] if k else 0.0)):
             ctx.viol_once('FrameSequence.chop', 'one_call_vs_incremental', f'frame {k} of chop(all) differs from chopping one by one')
         rec.validated += 1
         fd = float(can[k].distance.to(unit='m').value)
@@ -663,18 +679,19 @@ def run_case(case, rec):
         rec.nontrivial += 1
     tol_t = 1e-12 * ctx.tscale(FINAL)
 
-    def judge_final(frame, label, site, kind, exact_path):
+    def judge_final(frame, label, site, kind, exact_path, regular=True):
         """frame at FINAL must equal the canonical final frame."""
         rec.validated += 1
         arr = frame_arrays(frame)
         ctx.digests.add(frame_digest(frame))
-        check_regular(ctx, frame, arr, label)
+        if regular:
+            check_regular(ctx, frame, arr, label)
         fd = float(frame.distance.to(unit='m').value)
         if fd != FINAL:
             ctx.viol_once(site, 'frame_distance', f'{label}: distance {fd}')
             return False
         if exact_path:
-            ok = frames_eq(frame, final) and same_vertices(arr, fin_arr, tol_t)
+            ok = frames_eq(frame, final) and same_vertices(ctx, arr, fin_arr, FINAL)
         else:
             ok = same_set(ctx, arr, fin_arr, FINAL, BAND)
         if not ok:
@@ -701,7 +718,7 @@ def run_case(case, rec):
                 ctx.viol_once('FrameSequence.chop', 'order_dependence', f'listing order {perm} raises {type(e).__name__}: {e}', perm=list(perm))
                 continue
             if distinct:
-                ok = len(r) == len(can) and all(frames_eq(r[k], can[k]) and same_vertices(frame_arrays(r[k]), frame_arrays(can[k]), 0.0) for k in range(len(can)))
+                ok = len(r) == len(can) and all(frames_eq(r[k], can[k]) and same_vertices(ctx, frame_arrays(r[k]), frame_arrays(can[k]), dists[k - 1] if k else 0.0) for k in range(len(can)))
                 rec.validated += len(can)
                 if ok:
                     rec.cls('perm_equal_eq')
@@ -717,16 +734,24 @@ def run_case(case, rec):
         a = [ctx.rchops[i] for i in range(k)]
         b = [ctx.rchops[i] for i in range(k, n)]
         rec.transitions += 2 * n + 1
-        r = ctx.seq0.chop(a[::-1]).chop(b[::-1])
         same_path = distinct or (len(set(dists[:k])) == k and len(set(dists[k:])) == n - k)
-        f = r.propagate_to(final_d)[-1]
-        if len(r) == n + 1 and judge_final(f, f'chop({k} choppers).chop({n - k} choppers)', 'FrameSequence.chop', 'two_calls_vs_one', exact_path=same_path):
-            rec.cls('split_equal')
+        try:
+            r = ctx.seq0.chop(a[::-1]).chop(b[::-1])
+            f = r.propagate_to(final_d)[-1]
+        except Exception as e:  # noqa: BLE001 - both calls go with the beam; nothing may be refused
+            ctx.viol_once('FrameSequence.chop', 'two_calls_raise', f'chop({dists[:k][::-1]}).chop({dists[k:][::-1]}) raises {type(e).__name__}: {e}')
+        else:
+            if len(r) == n + 1 and judge_final(f, f'chop({k} choppers).chop({n - k} choppers)', 'FrameSequence.chop', 'two_calls_vs_one', exact_path=same_path):
+                rec.cls('split_equal')
         mid = (dists[k - 1] + dists[k]) / 2
-        r = ctx.seq0.chop(a).propagate_to(m(mid)).chop(b)
-        f = r.propagate_to(final_d)[-1]
-        if judge_final(f, f'chop({k}).propagate_to({mid} m).chop({n - k})', 'FrameSequence.propagate_to', 'propagate_between_chops', exact_path=False):
-            rec.cls('split_propagate_equal')
+        try:
+            r = ctx.seq0.chop(a).propagate_to(m(mid)).chop(b)
+            f = r.propagate_to(final_d)[-1]
+        except Exception as e:  # noqa: BLE001
+            ctx.viol_once('FrameSequence.propagate_to', 'propagate_between_chops_raises', f'chop({dists[:k]}).propagate_to({mid} m).chop({dists[k:]}) raises {type(e).__name__}: {e}')
+        else:
+            if judge_final(f, f'chop({k}).propagate_to({mid} m).chop({n - k})', 'FrameSequence.propagate_to', 'propagate_between_chops', exact_path=False):
+                rec.cls('split_propagate_equal')
         # against the beam
         try:
             r = ctx.seq0.chop(b).chop(a)
@@ -744,8 +769,7 @@ def run_case(case, rec):
             finseq.chop([ctx.rchops[0]])
         except ValueError:
             rec.cls('backward_rejected')
-        else:
-            pass  # accepted: judged by the model below would need a frame behind FINAL; not part of the alphabet
+        # (accepted instead: nothing to judge, there is no frame behind FINAL in the alphabet)
     if n == 0:
         r = ctx.seq0.chop([])
         rec.transitions += 1
@@ -758,8 +782,11 @@ def run_case(case, rec):
         rec.transitions += 4
         f1 = can.propagate_to(m(dm)).propagate_to(final_d)[-1]
         f2 = can[-1].propagate_to(m(dm)).propagate_to(final_d)
-        ok1 = judge_final(f1, f'propagate_to({dm}).propagate_to({FINAL})', 'FrameSequence.propagate_to', 'two_step_vs_one_step', exact_path=True)
-        ok2 = judge_final(f2, f'Frame.propagate_to({dm}).propagate_to({FINAL})', 'Frame.propagate_to', 'two_step_vs_one_step', exact_path=True)
+        # a step against the beam (100 m -> 80 m) is judged for (v) only: backward shearing is not monotone in
+        # floating point, and the statement's regularity claim is about frames propagated *through* the cascade
+        fwd = dm <= FINAL
+        ok1 = judge_final(f1, f'propagate_to({dm}).propagate_to({FINAL})', 'FrameSequence.propagate_to', 'two_step_vs_one_step', exact_path=True, regular=fwd)
+        ok2 = judge_final(f2, f'Frame.propagate_to({dm}).propagate_to({FINAL})', 'Frame.propagate_to', 'two_step_vs_one_step', exact_path=True, regular=fwd)
         if ok1 and ok2:
             rec.cls('two_step_equal')
     # array of distances
@@ -769,7 +796,7 @@ def run_case(case, rec):
     a_arr = frame_arrays(af)
     okarr = len(a_arr) == len(fin_arr)
     for (t, lam), (u, mu) in zip(a_arr, fin_arr, strict=False):
-        okarr = okarr and af.subframes[0].time.dims == ('distance', 'vertex') and t.shape == (2, *u.shape) and np.array_equal(lam, mu) and bool((np.abs(t[1] - u) <= tol_t).all())
+        okarr = okarr and t.shape == (2, *u.shape) and np.array_equal(lam, mu) and bool((np.abs(t[1] - u) <= tol_t).all())
     if not okarr:
         ctx.viol_once('FrameSequence.propagate_to', 'array_of_distances', 'slice at the final distance differs from the scalar propagation')
     else:
@@ -790,7 +817,11 @@ def run_case(case, rec):
     for d, label in marks:
         for seq, sname in ((can, 'chop(all)'), (finseq, f'chop(all).propagate_to({FINAL})')):
             rec.transitions += 1
-            f = seq[m(d)]
+            try:
+                f = seq[m(d)]
+            except Exception as e:  # noqa: BLE001 - every mark lies at or behind the source frame
+                ctx.viol_once('FrameSequence.__getitem__', 'raises', f'{sname}[{d} m] raises {type(e).__name__}: {e}')
+                continue
             fd = float(f.distance.to(unit='m').value)
             if fd != d:
                 ctx.viol_once('FrameSequence.__getitem__', 'frame_distance', f'{sname}[{d} m] has distance {fd}')
